@@ -733,7 +733,23 @@ func (m *Model) rehome(site *SQLSite, args []ssa.Value) (res []*SQLSite) {
 		}
 	}
 	// the helper's results must be the statement's own results (so that Scan / RowsAffected link up)
-	if cv := site.Call.Value(); cv != nil {
+	consumed := false
+	if cv := site.Call.Value(); cv != nil && cv.Referrers() != nil {
+		// ... unless the helper consumes the row itself (scans it and returns what it found)
+		consumed = len(*cv.Referrers()) > 0
+		for _, ref := range *cv.Referrers() {
+			c, isCall := ref.(*ssa.Call)
+			if !isCall {
+				consumed = false
+				continue
+			}
+			isScan := isMethodCall(c.Common(), "database/sql", "Row", "Scan") || (m.A.ScanHelper != nil && c.Common().StaticCallee() == m.A.ScanHelper)
+			if !isScan {
+				consumed = false
+			}
+		}
+	}
+	if cv := site.Call.Value(); cv != nil && !consumed {
 		for _, ret := range returnsOf(h) {
 			okRet := false
 			for _, rv := range ret.Results {
